@@ -32,6 +32,10 @@ def exp2_programs(t):
 CONSTS = dict(e=2, log2e=1, log10e=-1, pi=2, inv_pi=-1, inv_sqrtpi=0, ln2=0, ln10=2, sqrt2=1, sqrt3=1,
               inv_sqrt3=0, egamma=0, phi=1)
 EMAX = 2  # at 2^2 every constant has become 0
+# cells CNL cannot instantiate on the pinned tree: the (unused) series fallback e<Rep,2>() is still
+# instantiated and its `previous + addend` aligns exponents 2 and 2-digits, a shift of `digits`
+# -> power_value.h static_assert "attempted operation will result in overflow"
+NOT_COMPILABLE = [('e', 'i32', 2), ('e', 'i64', 2)]
 
 
 def const_cells(t):
@@ -43,7 +47,7 @@ def const_cells(t):
                 es = range(emin, EMAX + 1)
             else:
                 es = sorted(set([emin, emin // 2, 0]))
-            cells += [(name, rep, e) for e in es]
+            cells += [(name, rep, e) for e in es if (name, rep, e) not in NOT_COMPILABLE]
     return cells
 
 
@@ -63,18 +67,18 @@ def plan(tier):
     wide = ['X(%s, %d)' % p for p in ex if BITS[p[0]] == 32]
     klines = ['K(%s, %s, %d)' % c for c in cc]
     for comp in ('g++', 'clang++'):
-        for i, text in enumerate(split(narrow, 8 if t else 4)):
+        for i, text in enumerate(split(narrow, 4)):
             units.append(dict(name='%s-exp2n%d' % (comp, i), src='C20.cpp', compiler=comp, mode='ndebug',
                               defines=['VF_TIER=%d' % t], gen={'programs.inc': text}, shards=2))
-        for i, text in enumerate(split(wide, 8 if t else 3)):
+        for i, text in enumerate(split(wide, 4 if t else 3)):
             units.append(dict(name='%s-exp2w%d' % (comp, i), src='C20.cpp', compiler=comp, mode='ndebug',
                               defines=['VF_TIER=%d' % t], gen={'programs.inc': text}, shards=16 if t else 8))
-        for i, text in enumerate(split(klines, 12 if t else 2)):
+        for i, text in enumerate(split(klines, 6 if t else 2)):
             units.append(dict(name='%s-const%d' % (comp, i), src='C20.cpp', compiler=comp, mode='ndebug', opt='-O0',
                               defines=['VF_TIER=%d' % t], gen={'programs.inc': text}, shards=1))
     if t:
         # CNL_DEBUG build of the narrow exp2 programs (assertions in shifts/conversions active)
-        for i, text in enumerate(split(narrow, 8)):
+        for i, text in enumerate(split(narrow, 4)):
             units.append(dict(name='g++-debug-exp2n%d' % i, src='C20.cpp', compiler='g++', mode='debug',
                               defines=['VF_TIER=1'], gen={'programs.inc': text}, shards=2))
     kfree = 20 if t else 16
@@ -87,7 +91,8 @@ def plan(tier):
              'non-trivial = x non-integral and x >= E (polynomial path) / constant rep non-zero'
              % (len(ex), kfree, kfree, len(cc), '' if t else ' (quick: smallest, half of it, and 0)'),
         bound=dict(exp2_programs=len(ex), exp2_reps=['i8', 'u8', 'i16', 'u16', 'i32', 'u32'], free_fraction_bits_32bit=kfree,
-                   constants=sorted(CONSTS), constant_instantiations=len(cc), constant_reps=sorted(BITS), constant_max_exponent=EMAX),
+                   constants=sorted(CONSTS), constant_instantiations=len(cc), constant_reps=sorted(BITS), constant_max_exponent=EMAX,
+                   constant_cells_left_out_not_compilable=['%s_v<scaled_integer<%s,power<%d>>>' % c for c in NOT_COMPILABLE]),
         assumptions=[
             'glibc exp2l (x87 long double) has relative error <= 2^-60 on [-34, 32]; wherever x - E = n/2^k with k <= 7 this is cross-checked by exact integer '
             'powers (c^(2^k) vs 2^n) and a disagreement is reported as class oracle/exp2l_error_exceeds_assumption; cases where the assumed error leaves two '
